@@ -41,6 +41,7 @@ class Ctx:
         self.only_rule: Optional[str] = None
         self.extra_coverage: Dict[str, object] = {}
         self._seen_ok: Dict[tuple, dict] = {}
+        self._caches_used = set()
         self._seen_fail = set()
 
     # -- engine handles ---------------------------------------------------
@@ -61,9 +62,13 @@ class Ctx:
                 self.notes.append('unsupported constructs: ' + '; '.join(self._pta.unsupported[:5]))
         return self._pta
 
-    def explorer(self, **kw):
+    def explorer(self, raw: bool = False, **kw):
         from .paths import Explorer
-        return Explorer(self.ix, self.pta, **kw)
+        if raw:
+            return Explorer(self.ix, self.pta, **kw)
+        from .rules import caches
+        cold = caches.all_cold_fields(self)
+        return Explorer(self.ix, self.pta, cold_fields=cold, on_cold_read=self._caches_used.add, **kw)
 
     # -- ledger -----------------------------------------------------------
     def rule(self, rid: str, text: str):
